@@ -84,18 +84,25 @@ class Obligation:
 
 
 class State:
-    __slots__ = ("locals", "heap", "pc", "globals_")
+    __slots__ = ("locals", "heap", "pc", "resume")
 
     def __init__(self):
         self.locals: dict[str, V] = {}
         self.heap: dict[tuple, object] = {}
         self.pc: list = []
+        self.resume: "State | None" = None   # generator verification: snapshot at the last resumption point
 
     def copy(self) -> "State":
         s = State()
         s.locals = dict(self.locals)
         s.heap = dict(self.heap)
         s.pc = list(self.pc)
+        s.resume = self.resume
+        return s
+
+    def snapshot(self) -> "State":
+        s = self.copy()
+        s.resume = None
         return s
 
     def assume(self, c):
@@ -154,6 +161,8 @@ class Engine:
         self._native_mods: dict[str, object] = {}
         self.fmt_templates: dict[str, z3.FuncDeclRef] = {}
         self.stats = {"inlined": set(), "contracts_used": set()}
+        self.dry_keep_resume = False
+        self.resume_state = None   # generator verification: state at the last resumption point
 
     # ================================================================== helpers: sorts / heap
     def key_sort(self, key: tuple):
@@ -480,6 +489,10 @@ class Engine:
 
     def div(self, a: V, b: V) -> V:
         ar, br = self.coerce(a, REAL).z, self.coerce(b, REAL).z
+        brs = z3.simplify(br)
+        if z3.is_app_of(brs, z3.Z3_OP_ITE) and self.nl != "native":
+            c, x, y = brs.children()
+            return V(REAL, z3.If(c, self.div(a, V(REAL, x)).z, self.div(a, V(REAL, y)).z))
         if self.nl == "native" or self.is_constz(br):
             return V(REAL, ar / br)
         f = self.ufn("rdiv", z3.RealSort(), z3.RealSort(), z3.RealSort())
@@ -816,6 +829,13 @@ class Engine:
             if ty.is_reflike(o.t):
                 return o.z == ty.null
             return z3.BoolVal(False)
+        if a.t.kind == "funcref" or b.t.kind == "funcref":
+            tbl = self.fn_table()
+            conv = lambda v: V(ty.Fn("scaling"), tbl[v.py]) if v.t.kind == "funcref" and v.py in tbl else v
+            a, b = conv(a), conv(b)
+            if a.t.kind == "funcref" or b.t.kind == "funcref":
+                raise CheckerError("comparison with a function that is not in Segment.SCALING_FUNCS")
+            return a.z == b.z
         if a.t.kind == "pyconst" or b.t.kind == "pyconst":
             raise CheckerError("equality on python constants not modelled")
         if a.t.kind in ("list", "dict", "set") and b.t.kind == a.t.kind and not fr.spec:
@@ -857,6 +877,8 @@ class Engine:
             return z3.Or(*[self.eq(x, self.const(i), st, fr) for i in items]) if items else z3.BoolVal(False)
         if k == "pycase":
             return z3.Or(*[z3.And(c, self.contains(self.const(obj), x, st, fr)) for c, obj in coll.py])
+        if k == "tuple":
+            return z3.Or(*[self.eq(x, self.tuple_get(coll, i), st, fr) for i in range(len(coll.t.args))])
         if k in ("list", "seqv"):
             seq, et = self.as_seq(coll, st)
             return seq_ops(et).Mem(seq, self.coerce(x, et).z)
@@ -1530,15 +1552,29 @@ class Engine:
                     break
             if ok:
                 m.locals[nme] = res
-        keys = set()
-        for s in states:
-            keys |= set(s.heap)
-        for key in keys:
-            arrs = [self.h(s, key) for s in states]
-            res = arrs[-1]
-            for g, a in reversed(list(zip(guards[:-1], arrs[:-1]))):
-                res = a if a is res or a.eq(res) else z3.If(g, a, res)
-            m.heap[key] = res
+        def merge_heaps(sts, into):
+            keys = set()
+            for s in sts:
+                keys |= set(s.heap)
+            for key in keys:
+                arrs = [self.h(s, key) for s in sts]
+                res = arrs[-1]
+                for g, a in reversed(list(zip(guards[:-1], arrs[:-1]))):
+                    res = a if a is res or a.eq(res) else z3.If(g, a, res)
+                into.heap[key] = res
+        merge_heaps(states, m)
+        rs = [s.resume for s in states]
+        if any(r is not None for r in rs):
+            if all(r is rs[0] for r in rs):
+                m.resume = rs[0]
+            else:
+                if any(r is None for r in rs):
+                    raise CheckerError("merge of generator paths with and without a resumption snapshot")
+                mr = State()
+                mr.locals = dict(rs[0].locals)
+                mr.pc = m.pc
+                merge_heaps(rs, mr)
+                m.resume = mr
         return m
 
     # ================================================================== spec evaluation
